@@ -1115,4 +1115,12 @@ CHECKS = {"C06": check_C06, "C07": check_C07, "C14": check_C14, "C15": check_C15
 def run_check(pid, tier, seed):
     rep = Report(pid, tier, seed)
     if pid not in CHECKS: raise Broken("no check registered for " + pid)
-    return CHECKS[pid](rep)
+    try:
+        return CHECKS[pid](rep)
+    except Broken: raise
+    except Exception as e:
+        # the check could not interpret what the real code printed (garbled dump, missing block, unexpected shape): the correspondence
+        # between model and implementation no longer checks; whatever was found up to here is kept
+        import traceback
+        rep.tie_broken(f"the check could not interpret the output of the real code ({type(e).__name__}: {e}) at " + traceback.format_exc().strip().split("\n")[-3].strip()[:200])
+        return rep
